@@ -15,6 +15,7 @@ CR(n, d) == <<R(n, d), RZero>>
 Ham(n) == CASE n = "zero" -> CMatZero(2, 2)
             [] n = "z" -> CMatScale(R(1, 2), CMatInt(P_Z))
             [] n = "xy" -> CMatAdd(CMatScale(R(1, 4), CMatInt(P_X)), CMatScale(R(-1, 3), CMatInt(P_Y)))
+            [] n = "y3" -> CMatScale(RI(3), CMatInt(P_Y))
             [] n = "gen" -> << <<CR(3, 10), <<R(1, 5), R(-1, 4)>>>>, <<<<R(1, 5), R(1, 4)>>, CR(-1, 10)>> >>     \* with identity component
 \* dissipator coefficient matrices in the integer basis (X, Y, Z)
 KMat(n) == CASE n = "zero" -> CMatZero(3, 3)
@@ -23,7 +24,11 @@ KMat(n) == CASE n = "zero" -> CMatZero(3, 3)
              [] n = "rank1" -> << <<CR(1, 4), <<RZero, R(-1, 4)>>, CZero>>, <<<<RZero, R(1, 4)>>, CR(1, 4), CZero>>, <<CZero, CZero, CZero>> >>
              [] n = "dense" -> << <<CR(1, 2), <<R(1, 8), R(1, 8)>>, CR(-1, 8)>>, <<<<R(1, 8), R(-1, 8)>>, CR(1, 2), <<RZero, R(1, 16)>>>>, <<CR(-1, 8), <<RZero, R(-1, 16)>>, CR(1, 4)>> >>
              [] n = "indefinite" -> << <<CR(1, 4), CZero, CZero>>, <<CZero, CR(-1, 4), CZero>>, <<CZero, CZero, CZero>> >>
-KIsPsd(n) == n # "indefinite"
+             \* indefinite with genuinely complex eigenvectors: eigenvalues 3/4, -1/4, 1/8
+             [] n = "indefc" -> << <<CR(1, 4), <<RZero, R(1, 2)>>, CZero>>, <<<<RZero, R(-1, 2)>>, CR(1, 4), CZero>>, <<CZero, CZero, CR(1, 8)>> >>
+             \* rank two, complex
+             [] n = "rank2" -> << <<CR(1, 2), <<RZero, R(-1, 4)>>, CR(1, 4)>>, <<<<RZero, R(1, 4)>>, CR(1, 4), CZero>>, <<CR(1, 4), CZero, CR(1, 4)>> >>
+KIsPsd(n) == n \notin {"indefinite", "indefc"}
 SM == CMatInt(<< <<<<0,0>>, <<1,0>>>>, <<<<0,0>>, <<0,0>>>> >>)        \* |0><1|
 Jumps(n) == CASE n = "none" -> <<>>
               [] n = "damping" -> <<CMatScale(R(3, 5), SM)>>
